@@ -7,6 +7,7 @@ use rzmq::{FrameBatch, Msg, MsgFlags, ZmqError};
 pub mod wire;
 pub mod engine;
 pub mod stack;
+pub mod routing;
 
 /// byte-spec: `-` (empty) or `+`-joined tokens: `h<hex>` literal, `p<len>x<seed>` pattern
 /// (byte i = (seed + 31*i) mod 256), `z<len>` zeros.
